@@ -291,6 +291,21 @@ func C13(tier string) int {
 	if tier == "thorough" {
 		bound = 2
 	}
+	if os.Getenv("VERIF_C13_TABLES") != "" {
+		// Worker for the peer-table phase: violations go to stdout, one JSON object per line.
+		sub := ev.NewRun("C13", tier, "fault_enumeration")
+		cells, err := c13PeerTables(sub)
+		if err != nil {
+			fmt.Println("TABLES-ERROR " + err.Error())
+			return 3
+		}
+		for _, v := range sub.Violations() {
+			b, _ := json.Marshal(v)
+			fmt.Println("TABLES-VIOLATION " + string(b))
+		}
+		fmt.Printf("TABLES-CELLS %d\n", cells)
+		return 0
+	}
 	if v := os.Getenv("VERIF_C13_CONFIG"); v != "" {
 		var cfg c13Config
 		_ = json.Unmarshal([]byte(v), &cfg)
@@ -416,10 +431,51 @@ func C13(tier string) int {
 		fl = append(fl, f)
 	}
 	sort.Strings(fl)
-	tables, err := c13PeerTables(run)
-	if err != nil {
-		run.HarnessErr = err
-		return run.Finish()
+	// (In a worker process: a change that makes an instance die must not take this check with it.)
+	tables := 0
+	{
+		exe, err := os.Executable()
+		if err != nil {
+			run.HarnessErr = err
+			return run.Finish()
+		}
+		cmd := exec.Command(exe, "C13", tier)
+		cmd.Env = append(os.Environ(), "VERIF_C13_TABLES=1")
+		out, cerr := cmd.CombinedOutput()
+		text := string(out)
+		for _, line := range strings.Split(text, "\n") {
+			switch {
+			case strings.HasPrefix(line, "TABLES-VIOLATION "):
+				var v ev.Violation
+				if json.Unmarshal([]byte(strings.TrimPrefix(line, "TABLES-VIOLATION ")), &v) == nil {
+					run.Violate(v.Key, v.What, v.Replay)
+				}
+			case strings.HasPrefix(line, "TABLES-CELLS "):
+				fmt.Sscanf(line, "TABLES-CELLS %d", &tables)
+			case strings.HasPrefix(line, "TABLES-ERROR "):
+				run.HarnessErr = fmt.Errorf("peer-table phase: %s", strings.TrimPrefix(line, "TABLES-ERROR "))
+				return run.Finish()
+			}
+		}
+		if cerr != nil {
+			i := strings.Index(text, "fatal error: ")
+			if i < 0 {
+				i = strings.Index(text, "panic: ")
+			}
+			if i < 0 || !strings.Contains(text[i:], "github.com/attestantio/dirk/") {
+				if len(text) > 1200 {
+					text = text[len(text)-1200:]
+				}
+				run.HarnessErr = fmt.Errorf("peer-table phase: worker: %v: %s", cerr, text)
+				return run.Finish()
+			}
+			tail := text[i:]
+			if len(tail) > 1500 {
+				tail = tail[:1500]
+			}
+			run.Violate("peer-table:crash", "a generation on a cluster in which one instance does not know one of the participants makes the process that hosts the instances die: "+strings.ReplaceAll(tail, "\n", " | "),
+				map[string]any{"check": "C13", "peer_tables": true})
+		}
 	}
 	run.Coverage = map[string]any{
 		"generations_with_an_instance_that_does_not_know_a_participant": tables,
